@@ -52,6 +52,48 @@ def decode_variants(valid, rnd):
     return [v]
 
 
+_BOMB = {}
+
+
+def c13_extra(valid, rnd):
+    """C13: one single-datagram reply re-sent as a bzip2-compressed Source split whose stream is tiny but decompresses to
+    80 MiB of zeros (built with Python's bz2), announced size {true, 5 MiB, 2^31-1, 2^32-1}, two fragments in both arrival
+    orders: whatever the announced size and the order, the client may read at most its fixed decompression limit."""
+    import bz2, copy
+    c0 = valid.case()
+    if valid.notwf or not c0.args[1].startswith("S:") or c0.args[1] == "S:240" or not c0.script or c0.script[0] == "X":
+        return []
+    seg = valid.seg()
+    ch = [int(x) for x in valid.tags["CH"].split(",")]
+    ds = c0.script[0]
+    starts = [0, seg[0], seg[0] + seg[1]]
+    singles = [k for k in range(3) if seg[k] - ch[k] == 1 and seg[k] > 0
+               and ds[starts[k] + ch[k]] is not None and ds[starts[k] + ch[k]][:4] == b"\xff\xff\xff\xff"]
+    if not singles:
+        return []
+    if "z" not in _BOMB:
+        _BOMB["n"] = 80 << 20
+        _BOMB["z"] = bz2.compress(b"\0" * _BOMB["n"], 9)
+    z, out = _BOMB["z"], []
+    k = rnd.choice(singles)
+    at = starts[k] + ch[k]
+    cut = rnd.randrange(1, len(z))
+    chunks = [z[:cut], z[cut:]]
+    for size in (_BOMB["n"], 5 << 20, 0x7FFFFFFF, 0xFFFFFFFF):
+        for order in ((0, 1), (1, 0)):
+            c = valid.case()
+            sid = rnd.getrandbits(31) | 0x80000000
+            frags = []
+            for i, chunk in enumerate(chunks):
+                head = b"\xfe\xff\xff\xff" + sid.to_bytes(4, "little") + bytes([2, i]) + (1248).to_bytes(2, "little")
+                if i == 0:
+                    head += size.to_bytes(4, "little") + b"\x00\x00\x00\x00"
+                frags.append(head + chunk)
+            c.script[0] = ds[:at] + [frags[i] for i in order] + ds[at + 1:]
+            out.append((c, f"bz-bomb-{'in' if order == (0, 1) else 'out-of'}-order"))
+    return out
+
+
 def fragment_groups(case):
     """C08: [(conn, start, count)] of the split datagrams of one reply: consecutive datagrams with the split header
     and the same split id whose packet numbers keep rising (a new reply may reuse the id)"""
